@@ -82,7 +82,7 @@ func generalRuns() []famRun {
 			{Module: "General", Consts: " MaxLen = 4\n MinLen = 4\n Fuel = 64\n ImageSet = \"one\"\n Alphabet = \"alu\"\n"},
 			{Module: "General", Consts: " MaxLen = 4\n MinLen = 4\n Fuel = 64\n ImageSet = \"one\"\n Alphabet = \"mem\"\n"},
 			{Module: "General", Consts: " MaxLen = 4\n MinLen = 4\n Fuel = 64\n ImageSet = \"one\"\n Alphabet = \"ctl\"\n"},
-			{Module: "General", Consts: " MaxLen = 40\n MinLen = 8\n Fuel = 600\n ImageSet = \"three\"\n Alphabet = \"loop\"\n", Simulate: "num=3000", Depth: 45, SeedOff: 1},
+			{Module: "General", Consts: " MaxLen = 32\n MinLen = 8\n Fuel = 300\n ImageSet = \"three\"\n Alphabet = \"loop\"\n", Simulate: "num=600", Depth: 36, SeedOff: 1}, // TLC's simulator is single-threaded and the class predicates are quadratic in the run length
 		}
 	}
 	return []famRun{
